@@ -226,6 +226,9 @@ def _shared(ctx):
     from .common import Proxy, share
     share(ctx, 'C08', 'R5/C08.', ['R1.', 'R6.'])
     share(ctx, 'C07', 'R5/C07.', ['R2.skip', 'R4.norm_nonzero'])
+    # a non-finite density of ANY channel (also a disabled one) must make the point weight non-finite,
+    # so that the point is discarded as a whole: the weight is J / sum over all channels (shared with C01)
+    share(ctx, 'C01', 'R5/C01.', ['R2.weight'])
 
 
 def value_atoms(t):
